@@ -34,6 +34,8 @@ MANIFEST = {
     'technique': 'Rocq/Coq proof over a Gallina model parameterised by source-derived tables + extraction-based correspondence',
 }
 BUDGET = {'quick': 75, 'thorough': 1500}
+ESCALATE_BUDGET = 150
+SEARCH_BUDGET = 120
 MISMATCH_BUDGET = 0.0
 RULE = ('sequences of 1-8 blocks on systems drawn from 5 raster families (Siemens 10/1/10/0.1 us, GE 4/2/4/2, 20 us gradients, '
         '6.4 us, fine 0.5 us rf) with random RF dead/ring-down and ADC dead times; blocks mix block/sinc RF, trapezoids '
@@ -140,7 +142,7 @@ def inject(rng, case, opts, kinds=None):
                     ev['alt'] = True
                     ev['delay'] = float(F(a[own]) + extra)
                     exp = []
-                    if F(ev['delay']) < F(s[own]):
+                    if F(ev['delay']) < F(s[own]) - tg.EPS * 2:
                         exp.append((bi + 1, tg.slot_of(ev), 'delay', 'RF_DEAD_TIME' if ev['k'] != 'adc' else 'ADC_DEAD_TIME'))
                     return ('%s built for a system with shorter dead times' % tg.slot_of(ev), exp)
         elif kind in ('stored_cut', 'stored_long', 'stored_off'):
@@ -178,6 +180,12 @@ def inject(rng, case, opts, kinds=None):
             exp = [(bi + 1, 'block', 'duration', 'RASTER')] if frac >= Fraction(1, 10 ** 5) else []
             return ('block duration off raster by %s' % float(frac), exp)
     return None
+
+
+def variant():
+    """True when the source under test applies the block-raster test to the stored duration (repaired source)"""
+    import translate
+    return bool(translate.CONSTS.get('timing_raster_on_stored', False))
 
 
 def gen_case(rng, stream):
@@ -244,7 +252,7 @@ def evaluate(ctx, case, collect=None):
     irep = tg.norm_report(report)
     s = tg.sys_fr(seq)
     ds = [tg.decode(seq, bid) for bid in seq.block_events]
-    orep, near = tg.oracle_report(s, ds)
+    orep, near = tg.oracle_report(s, ds, variant())
     detail = None
     sig = None
     if ok != (len(report) == 0):
@@ -359,6 +367,13 @@ def corpus():
     a4['n'] = 100
     cs.append({'stream': 'alt', 'sys': s, 'alt': dict(s, adc_dead=0.0), 'faults': ['corpus: post-adc'],
                'expected': [[1, 'adc', 'duration', 'POST_ADC_DEAD_TIME']], 'blocks': [{'events': [a4]}]})
+    # known finding C10/ok-but-write-raises: an attribute that is not raster-checked (rf.shape_dur, recomputed by
+    # get_block) 0.5 ns short: the stored duration is 0.5 ns below the on-raster content; the mismatch test tolerates
+    # eps = 1 ns, the writer's assertion only 1e-6 raster
+    rf5 = copy.deepcopy(rf)
+    rf5['set'] = {'shape_dur': 1e-3 - 5e-10}
+    cs.append({'stream': 'fault1', 'sys': s, 'alt': None, 'faults': ['corpus: rf.shape_dur 0.5 ns short'], 'expected': [],
+               'blocks': [{'events': [rf5]}]})
     return cs
 
 
@@ -396,5 +411,5 @@ def replay(ctx, case):
         return {'note': 'case does not build'}
     if ctx.model_available:
         compare_model(ctx, [(case, it)])
-    orep, near = tg.oracle_report(it['sys'], it['ds'])
+    orep, near = tg.oracle_report(it['sys'], it['ds'], variant())
     return {'ok': it['ok'], 'reported': it['irep'], 'oracle': orep, 'near_threshold': near, 'faults': case.get('faults')}
